@@ -470,6 +470,9 @@ impl Machine {
     fn eval_builtin_app(&mut self, runtime: BuiltinRuntime) -> Result<Value, Error> {
         let cost = runtime.to_ex_budget(&self.costs.builtin_costs, self.semantics)?;
 
+        #[cfg(feature = "verif-hooks")]
+        crate::verif::builtin_charged(runtime.fun, runtime.verif_args(), cost);
+
         self.spend_budget(cost)?;
 
         if let Some(counter) = &mut self.spend_counter {
